@@ -21,6 +21,7 @@ ASSUMPTIONS = [
 ]
 EXHAUSTIVE = {"quick": False, "thorough": False}
 MARKED = True   # the stdout default logger of the code under test may print; observation lines carry the @@ mark
+HARNESS_TIMEOUT_S = {"quick": 240}   # the quick run needs about 20 s; beyond this the code under test hangs
 
 PRIO_NAMES = ["msg", "http_method", "path", "request_body_len", "request_body", "response_body_len"]
 OTHER_NAMES = ["code", "request_id", "k", "x", "a b", "K", "é", "n\"q", "", "user", "zz", "msg2", "Path"]
